@@ -73,7 +73,12 @@ def generate(rng, tier, shard, nshards):
                 kind = "omitted"        # the date argument left out altogether (not the same as date=None)
             elif kind == "explicit" and j > 0 and rng.random() < 0.15:
                 kind = "own-date"       # the object's own `date` attribute (a datetime.date) handed back as the date of the next query
+            if j > 0 and rng.random() < 0.2:      # the same station again at another height (a vertical profile), or the same point again
+                lat, lon = qs[-1]["lat"], qs[-1]["lon"]
+                h = qs[-1]["h"] if rng.random() < 0.25 else float(rng.uniform(-1, 850))
             dd = draw_date(rng, bool(rng.random() < 0.4))
+            if j > 0 and rng.random() < 0.15:
+                dd = qs[-1]["date"]               # ... and / or the same date again
             if rng.random() < 0.15:     # decimal years just below a tenth / an epoch boundary
                 dd = float(rng.choice([2019.999, 2024.999, 2017.549, 2022.348, 2021.048, 2026.951, 2019.949, 2015.051]))
             qs.append({"kind": kind, "lat": lat, "lon": lon, "h": h, "date": dd})
